@@ -866,6 +866,7 @@ UNITS = [
     ("lock coverage, deque primitives", ["LockCoverage.lean"], unit_lockcov),
     ("deque_pop, queue_find, call_pos, task predicates", ["Sched.lean"], lambda src: {"Sched.lean": gen_sched(src)}),
     ("tools.PriorityQueue", ["PQ.lean"], lambda src: __import__("pq2lean").generate(src)),
+    ("heapq.py of the running interpreter", ["Heapq.lean"], lambda src: __import__("heapq2lean").generate(src)),
     ("PosPriorityQueue", ["PosPQ.lean"], lambda src: __import__("pospq2lean").generate(src)),
     ("task_throw, task_interrupt prefix", ["Interrupt.lean"], lambda src: __import__("interrupt2lean").generate(src)),
     ("scheduling ops", ["SchedOps.lean"], lambda src: __import__("sched2lean").generate(src)),
@@ -875,6 +876,7 @@ UNITS = [
      ["Wrappers.lean"], lambda src: __import__("wrappers2lean").generate(src)),
     ("condition variables", ["Cond.lean"], lambda src: __import__("cond2lean").generate(src)),
     ("task_timeout", ["Timeout.lean"], lambda src: __import__("timeout2lean").generate(src)),
+    ("asyncio.locks (stdlib)", ["AsyncioLocks.lean"], lambda src: __import__("asynciolocks2lean").generate(src)),
     ("PriorityLock / PriorityTask lock layer", ["Lock.lean"], lambda src: __import__("lock2lean").generate(src)),
     ("CoroStart, _Continuation, coro_eager, cancelling", ["CoroStart.lean"], lambda src: __import__("corostart2lean").generate(src)),
     ("monitor.py: Monitor, BoundMonitor, GeneratorObject(Iterator)", ["Monitor.lean"],
